@@ -455,7 +455,7 @@ where
                                 cur = r;
                             }
                             Ty::Other(s) if s == "<opaque>" => return (n, Ctor::Simple(args)),
-                            _ => return (n, Ctor::Gadt(strip_implicit(&t))),
+                            _ => return (n, Ctor::Gadt(t.clone())),
                         }
                     }
                 })
@@ -471,10 +471,6 @@ where
         Type::ExtendRow { .. } | Type::ExtendTypeRow { .. } => Ty::Other("row".into()),
     }
 }
-fn strip_implicit(t: &Ty) -> Ty {
-    t.clone()
-}
-
 /// The equivalence the round trip is judged by: nested applications are one application
 /// (`(F a) b` = `F a b`) and `(->) a b` is `a -> b` (`as_function`, base/src/types/mod.rs:1306).
 fn norm(t: &Ty) -> Ty {
@@ -523,7 +519,12 @@ fn norm(t: &Ty) -> Ty {
 // ---------------------------------------------------------------------------------------------
 // real printer / tokenizer / parser
 // ---------------------------------------------------------------------------------------------
-const WIDTHS: &[usize] = &[20, 40, 80, 120, 200];
+const WIDTHS_QUICK: &[usize] = &[20, 40, 80, 120, 200];
+const WIDTHS_THOROUGH: &[usize] = &[20, 30, 40, 60, 80, 100, 120, 160, 200];
+static THOROUGH: std::sync::atomic::AtomicBool = std::sync::atomic::AtomicBool::new(false);
+fn widths() -> &'static [usize] {
+    if THOROUGH.load(std::sync::atomic::Ordering::Relaxed) { WIDTHS_THOROUGH } else { WIDTHS_QUICK }
+}
 
 fn print_at(t: &ArcType, w: Option<usize>) -> String {
     match w {
@@ -681,7 +682,7 @@ fn probe() {
         println!("== {}", sx(t));
         println!("   canon(arc) {}", if canon(&arc) == *t { "same".to_string() } else { sx(&canon(&arc)) });
         let mut seen = std::collections::BTreeSet::new();
-        for w in std::iter::once(None).chain(WIDTHS.iter().map(|w| Some(*w))) {
+        for w in std::iter::once(None).chain(widths().iter().map(|w| Some(*w))) {
             let p = print_at(&arc, w);
             if !seen.insert(p.clone()) {
                 continue;
@@ -1470,7 +1471,7 @@ fn run_type(t: &Ty, family: &str, with_model: bool, mutants: usize, rng: &mut Rn
     let mut renderings: Vec<(Option<usize>, String)> = vec![];
     let mut tok_sets: Vec<Vec<String>> = vec![];
     let mut lex_error = None;
-    for w in std::iter::once(None).chain(WIDTHS.iter().map(|w| Some(*w))) {
+    for w in std::iter::once(None).chain(widths().iter().map(|w| Some(*w))) {
         let p = std::panic::catch_unwind(std::panic::AssertUnwindSafe(|| print_at(&arc, w))).unwrap_or_else(|_| "<printer panicked>".to_string());
         match tokens(&p) {
             Ok(ts) => {
@@ -1690,9 +1691,9 @@ fn replay(path: &str) {
     println!("type:      {}", sx(&t));
     println!("canonical: {}", sx(&expected));
     let w = case["width"].as_i64().unwrap_or(-1);
-    let widths: Vec<Option<usize>> = if w < 0 { vec![None] } else { vec![Some(w as usize)] };
+    let first: Vec<Option<usize>> = if w < 0 { vec![None] } else { vec![Some(w as usize)] };
     let mut failed = false;
-    for w in widths.into_iter().chain(std::iter::once(None)).chain(WIDTHS.iter().map(|w| Some(*w))) {
+    for w in first.into_iter().chain(std::iter::once(None)).chain(widths().iter().map(|w| Some(*w))) {
         let p = print_at(&arc, w);
         let ctxs: &[Ctx] = if matches!(t, Ty::Variant(..)) { &[Ctx::TypeBind] } else { &[Ctx::Let, Ctx::TypeBind] };
         for ctx in ctxs {
@@ -1741,6 +1742,7 @@ fn main() {
     };
     let mut rng = Rng::new(args.seed);
     let thorough = args.thorough();
+    THOROUGH.store(thorough, std::sync::atomic::Ordering::Relaxed);
     let get = |k: &str, d: usize| args.extra.get(k).and_then(|s| s.parse().ok()).unwrap_or(d);
 
     // Family 0: corpus (s-expressions, one per line; `#` comments)
@@ -1787,7 +1789,7 @@ fn main() {
         run_type(t, "exhaustive-variant", model_mirrors(class_of(t)), if i % 4 == 0 { 1 } else { 0 }, &mut rng, &mut o);
     }
     // Family 3: random, larger, long names (line breaks at the narrow widths)
-    let nrand = get("random", if thorough { 400000 } else { 20000 });
+    let nrand = get("random", if thorough { 250000 } else { 20000 });
     let maxrand = get("randsize", if thorough { 14 } else { 10 });
     for i in 0..nrand {
         let budget = 2 + rng.below(maxrand as u64 - 1) as usize;
@@ -1825,7 +1827,7 @@ fn main() {
             "random_types": nrand,
             "random_maxsize": maxrand,
             "corpus_types": corpus_n,
-            "widths": WIDTHS,
+            "widths": widths(),
             "roundtrip_failures": o.rt_fail,
             "samples": o.samples,
             "hist": o.hist.to_json(),
